@@ -92,6 +92,9 @@ func RunProperty(cfg Config) int {
 		return 2
 	}
 	ov[filepath.Join(cfg.Repo, "internal/zzverif/zz_gen.go")] = genFile
+	if fieldsFile := filepath.Join(tmp, "zz_verif_gen_fields.go"); load.GenerateFields(cfg.Repo, fieldsFile) == nil {
+		ov[filepath.Join(cfg.Repo, "zz_verif_gen_fields.go")] = fieldsFile
+	}
 	l, err := load.Load(cfg.Repo, ov, nil)
 	if err != nil {
 		fmt.Println("INCONCLUSIVE /repo does not load:", err)
@@ -529,6 +532,9 @@ func Replay(cfg Config, path string) int {
 	genFile := filepath.Join(tmp, "zz_gen.go")
 	load.Generate(cfg.Repo, genFile)
 	ov[filepath.Join(cfg.Repo, "internal/zzverif/zz_gen.go")] = genFile
+	if fieldsFile := filepath.Join(tmp, "zz_verif_gen_fields.go"); load.GenerateFields(cfg.Repo, fieldsFile) == nil {
+		ov[filepath.Join(cfg.Repo, "zz_verif_gen_fields.go")] = fieldsFile
+	}
 	l, err := load.Load(cfg.Repo, ov, nil)
 	if err != nil {
 		fmt.Println("INCONCLUSIVE /repo does not load:", err)
